@@ -8,6 +8,7 @@ REPO = os.environ.get('VERIF_REPO', '/repo')
 os.environ['VERIF_REPO'] = REPO
 os.environ['VERIF_DIR'] = VERIF
 root = VERIF + '/seeded'
+NOTES = json.load(open(VERIF + '/tools/seed_notes.json'))
 names = sys.argv[1:] or sorted(os.listdir(root))
 for n in names:
     d = os.path.join(root, n)
@@ -33,6 +34,11 @@ for n in names:
     meta.setdefault('property', prop)
     meta.setdefault('source', 'independent sub-agent given only the property text and a scratch worktree of /repo (no access to /verif)')
     meta['files_changed'] = sorted(set(re.findall(r'^\+\+\+ b/(\S+)', open(os.path.join(d, 'patch.diff')).read(), re.M)))
+    note = NOTES.get(n, {})
+    if note.get('what'):
+        meta['change'] = note['what']
+    if note.get('needs'):
+        meta['needs_to_manifest'] = note['needs']
     meta.setdefault('needs_to_manifest', '')
     meta['confirmed_by'] = 'tools/confirm_seed.sh in a scratch worktree: ' + open(os.path.join(d, 'confirm.log')).read().replace('\n', '; ') if os.path.exists(os.path.join(d, 'confirm.log')) else ''
     meta['ran'] = 'git -C /repo apply patch.diff; /verif/check %s --tier quick; git -C /repo checkout -- .' % prop
